@@ -2,6 +2,7 @@ package governance
 
 import (
 	"fmt"
+	"math"
 
 	"github.com/oasisprotocol/oasis-core/go/common/crypto/signature"
 	"github.com/oasisprotocol/oasis-core/go/consensus/cometbft/api"
@@ -164,6 +165,21 @@ func (app *Application) submitProposal(
 		return nil, governance.ErrInvalidArgument
 	}
 
+	// Load the next proposal identifier.
+	id, err := state.NextProposalIdentifier(ctx)
+	if err != nil {
+		ctx.Logger().Error("governance: failed to get next proposal identifier",
+			"err", err,
+		)
+		return nil, fmt.Errorf("governance: failed to get next proposal identifier: %w", err)
+	}
+	// The identifier after it must be representable, otherwise the counter would wrap around and
+	// a later proposal would replace an existing one.
+	if id == math.MaxUint64 {
+		ctx.Logger().Error("governance: proposal identifiers exhausted")
+		return nil, governance.ErrInvalidArgument
+	}
+
 	// Deposit proposal funds.
 	if err = stakingState.TransferToGovernanceDeposits(
 		ctx,
@@ -178,14 +194,6 @@ func (app *Application) submitProposal(
 		return nil, fmt.Errorf("governance: failed to deposit governance: %w", err)
 	}
 
-	// Load the next proposal identifier.
-	id, err := state.NextProposalIdentifier(ctx)
-	if err != nil {
-		ctx.Logger().Error("governance: failed to get next proposal identifier",
-			"err", err,
-		)
-		return nil, fmt.Errorf("governance: failed to get next proposal identifier: %w", err)
-	}
 	if err := state.SetNextProposalIdentifier(ctx, id+1); err != nil {
 		ctx.Logger().Error("governance: failed to set next proposal identifier",
 			"err", err,
